@@ -128,12 +128,17 @@ def check(chk):
     rets = [n for n in body_walk(dw) if isinstance(n, ast.Return) and n.value is not None]
     okd = False
     if rets and isinstance(rets[-1].value, ast.BinOp) and isinstance(rets[-1].value.op, ast.Add):
-        env = {}
-        for st in body_walk(dw):
-            if isinstance(st, ast.Assign) and isinstance(st.targets[0], ast.Name) and isinstance(st.value, ast.Call):
-                env[st.targets[0].id] = (chain(st.value.func) or ('',))[-1]
+        # each operand is a call of the packer, or a name whose last assignment before the return is such a call
+        def _packer(e):
+            if isinstance(e, ast.Call):
+                return (chain(e.func) or ('',))[-1]
+            if isinstance(e, ast.Name):
+                ds = [st for st in body_walk(dw) if isinstance(st, ast.Assign) and any(isinstance(t, ast.Name) and t.id == e.id for t in st.targets) and st.lineno < rets[-1].lineno]
+                if ds and isinstance(ds[-1].value, ast.Call):
+                    return (chain(ds[-1].value.func) or ('',))[-1]
+            return None
         l, r = rets[-1].value.left, rets[-1].value.right
-        okd = isinstance(l, ast.Name) and isinstance(r, ast.Name) and env.get(l.id) == 'int32_pack' and env.get(r.id) == 'varint_pack'
+        okd = _packer(l) == 'int32_pack' and _packer(r) == 'varint_pack'
     chk.judge(okd, 'C01.slices', dw, 'DecimalType.serialize returns int32 scale + varint unscaled',
               'decimal writer does not emit the 4-byte scale before the varint (the reader slices [:4] / [4:])')
 
@@ -339,10 +344,28 @@ def check(chk):
         return res
     want_bits = [b >= 128 for b in range(256)]
     ru = byte_pred(neg_if[0].test)
-    rp = byte_pred(pad_if[0].test, drop_names=('pos',))
+    # the byte part of the padding test (the conjunct that looks at the top byte); which numbers reach the padding is decided below from the paths
+    conj_ = pad_if[0].test.values if isinstance(pad_if[0].test, ast.BoolOp) and isinstance(pad_if[0].test.op, ast.And) else [pad_if[0].test]
+    byte_conj = [c_ for c_ in conj_ if any(isinstance(x, ast.Subscript) for x in ast.walk(c_))]
+    if len(byte_conj) != 1:
+        raise AnalysisError('varint_pack: padding test %s has no single byte conjunct' % src(pad_if[0].test))
+    rp = byte_pred(byte_conj[0])
+    from ..cfg import CFG as _CFG1, Flow as _Flow1
+    from ..guards import normalise_atom as _na1
+    gvp = _CFG1(vp)
+
+    def _edge(n, succ, lab, c):
+        if lab is not None and lab[0] in ('T', 'F'):
+            k_, flip_ = _na1(lab[1])
+            if k_ == 'big < 0':
+                return 'neg' if ((lab[0] == 'T') != flip_) else 'pos'
+        return c
+    flvp = _Flow1(gvp, 'unknown', lambda n, c: c, edge=_edge)
+    pad_nodes = [n for n in gvp.stmt_nodes() if n.kind == 'stmt' and any(n.ast is x for st_ in pad_if[0].body for x in ast.walk(st_))]
+    pad_states = set(c for n in pad_nodes for _f, c in flvp.at(n))
     chk.judge(ru == want_bits, 'C01.signbit', vu, 'varint_unpack: negative iff first byte >= 0x80 (%s)' % src(neg_if[0].test),
               'sign test differs from bit 7 at byte values %s' % [b for b in range(256) if ru[b] != want_bits[b]][:8])
-    chk.judge(rp == want_bits and 'pos' in [n.id for n in ast.walk(pad_if[0].test) if isinstance(n, ast.Name)], 'C01.signbit', vp,
+    chk.judge(rp == want_bits and pad_states == set(['pos']), 'C01.signbit', vp,
               'varint_pack: positive padded with 0x00 iff top byte >= 0x80 (%s)' % src(pad_if[0].test),
               'padding test differs from the reader\'s sign test at top byte values %s: such a positive number decodes as negative (or carries a redundant byte)'
               % [hex(b) for b in range(256) if rp[b] != want_bits[b]][:8])
